@@ -86,12 +86,17 @@ def main(only=None):
             if r.get('applies') is False:
                 src = 'patch no longer applies (lines changed by a later fix)'
             else:
+                note = r.pop('_note', None)
                 checks, src = r, 'current checks'
+                if note:
+                    src += ' - ' + note
         key = '-'.join(name.split('-')[:2])
         needs = NEEDS.get(key) or m.get('needs_to_manifest', '')
         total += 1
         if any(v.get('rc') == 1 for v in checks.values()):
             caught += 1
+        elif 'no longer' in src:
+            total -= 1
         rows.append(f"| {name} | {m['breaks_property']} | {needs} | "
                     f"{fmt(checks)} | {src} |")
     print('| seeded change | property | needs, to manifest | quick check '
